@@ -236,7 +236,7 @@ CHECKS = {
               "float32 bits, predictions and a second export are compared bitwise; add_bn_fusing_weights is compared with the float32 "
               "evaluation-order model on stand-in layers; the freezing utility is run on functional models. Two genuine defects repaired."),
         design_ref="DESIGN.md section 5 C14, section 8, section 10",
-        note=(TB_COMMON + "find_bn_fusing_layer_pair is replaced by a harness function (needs the Keras-2 graph: known finding); "
+        note=(TB_COMMON + "find_bn_fusing_layer_pair needs four Keras-2 accessors (known finding) which the harness installs as pure accessors; the real finder then runs; "
               "QBatchNormalization does not build under the pinned Keras 3, so the fusing terms are checked on stand-in layers; rsqrt is an "
               "oracle; HDF5 writing (filename=) is not exercised; idempotence of po2 / binary / ternary instances is checked on the "
               "implementation (their exponent-level idempotence theorem is C03's)."),
